@@ -349,7 +349,7 @@ Section Loops.
       destruct (read_fin s buf crlf term rest E F) as (n & s' & R & Hn & S').
       rewrite R. rewrite (str_from_app buf ("/" :: "/" :: term) eq_refl). cbn [rbind].
       change (starts_with slashes ("/" :: "/" :: term)) with true. cbn iota.
-      exists s'. split; [|exact S']. rewrite app_length, Hn. reflexivity.
+      exists s'. split; [|exact S']. reflexivity.
     - destruct fuel; [lia|]. cbn [next_loop]. rewrite <- app_assoc in E. cbn [app] in E.
       destruct (read_line_good s buf x _ E H1 H2) as (s' & R & S').
       rewrite R. destruct (length (x ++ [x0a])) as [|n] eqn:Len; [rewrite app_length in Len; simpl in Len; lia|].
@@ -358,8 +358,7 @@ Section Loops.
       destruct (IH fuel (buf ++ x ++ [x0a]) s' term rest S' F) as (s'' & K & S'').
       { rewrite E, count_nl_line in L. rewrite S'. lia. }
       exists s''. split; [|exact S''].
-      assert (Hlen : length (buf ++ x ++ [x0a]) = length buf + S n) by (rewrite app_length, Len; reflexivity).
-      rewrite Hlen in K. rewrite K.
+      rewrite K.
       rewrite <- !app_assoc. cbn [app]. reflexivity.
   Qed.
 
@@ -385,8 +384,7 @@ Section Loops.
       destruct (IH fuel (buf ++ x ++ [x0a]) s' term rest S' F) as (s'' & K & S'').
       { rewrite E, count_nl_line in L. rewrite S'. lia. }
       exists s''. split; [|exact S''].
-      assert (Hlen : length (buf ++ x ++ [x0a]) = length buf + S n) by (rewrite app_length, Len; reflexivity).
-      rewrite Hlen in K. rewrite K.
+      rewrite K.
       rewrite <- !app_assoc. cbn [app]. reflexivity.
   Qed.
 End Loops.
